@@ -190,7 +190,7 @@ def invariant(ctx, sec, where, las=None, tracked=None):
 
 
 # ---- workload -------------------------------------------------------------------------------------------
-RT_NAMES = ["A", "a", "", "B"]
+RT_NAMES = ["A", "a", "", "B", "  "]      # "  ": a mnemonic of blanks only is blank too (it can only be made through the API)
 
 
 def grid(tier):
@@ -222,12 +222,13 @@ def n_random(tier):
 
 def random_case(rng, tier):
     if rng.random() < 0.8:
-        allops = OPS + [("insert", "last", n) for n in NAMES] + [("replace", "last", n) for n in NAMES] + \
+        allops = OPS + [(k, w, n) for k in ("insert", "replace") for w in ("first", "last") for n in (" ", "   ", "\t")] + [("append", n) for n in (" ", "  ", "\t")] + \
+            [("insert", "last", n) for n in NAMES] + [("replace", "last", n) for n in NAMES] + \
             [("replace", "mid", n) for n in NAMES] + [("pop", "mid"), ("del_key", "first"), ("del_key", "last")] + \
             [("attr_new", n) for n in ("A", "a", "B", "Z9")] + [("attr_replace", "first", n) for n in NAMES] + [("attr_replace", "last", "A")]
         return {"kind": "ops", "ops": [list(rng.choice(allops)) for _ in range(rng.randint(5, 12))],
                 "norm": rng.random() < 0.5, "curves": rng.random() < 0.3}
-    pool = ["A", "a", "", "B", "DEPT", "Gr", "GR", "x1"]
+    pool = ["A", "a", "", "B", "DEPT", "Gr", "GR", "x1", " ", "   "]
     return {"kind": "roundtrip", "names": [rng.choice(pool) for _ in range(rng.randint(2, 8))],
             "section": rng.choice(["Curves", "Well", "Parameter"]), "version": rng.choice([1.2, 2.0])}
 
@@ -368,7 +369,7 @@ def run_roundtrip(ctx, case):
             continue
         if on and ln.strip():
             body.append(ln.split(".", 1)[0].strip())
-    if body != [m for m in mem_originals]:
+    if body != [m.strip() for m in mem_originals]:
         ctx.violation("write-does-not-emit-originals", "%s lines carry mnemonics %r, originals are %r" % (
             title, body, mem_originals), {"case": case, "text": text})
     for mc in ("preserve", "upper", "lower"):
@@ -381,7 +382,7 @@ def run_roundtrip(ctx, case):
             continue
         bsec = back.sections[section]
         f = {"preserve": str, "upper": str.upper, "lower": str.lower}[mc]
-        want_orig = [f(o) for o in mem_originals]
+        want_orig = [f(o) if o.strip() else "" for o in mem_originals]      # a blank mnemonic is written as blanks and read as ''
         got_orig = [it.original_mnemonic for it in secops.raw_items(bsec)]
         if got_orig != want_orig:
             ctx.violation("roundtrip-originals-differ", "mnemonic_case=%s: originals %r, expected %r" % (mc, got_orig, want_orig),
